@@ -36,7 +36,7 @@ from pyvc.values import (Unsupported, VDict, VList, VRange, VRec, VRef, VSet, VT
 __file_spec__ = [common_c.__file__, __file__]
 
 DICT_ORDER_INVARIANT = True   # an insertion-ordered dict lists exactly its keys, each once (engine.assume_dict_wf)
-SET_CARD_FUNCTION = True      # len(set of ints) is the uninterpreted, non-negative function set.card of the set value
+SET_CARD_FUNCTION = True      # len(set of ints) is the uninterpreted, non-negative function len.set of the set value
 
 CLASSES = dict(common_c.CLASSES)
 CLASSES.update({
@@ -420,15 +420,20 @@ def before(a, o, i, j):
 
 
 @spec
-def vars_made(A1, A2, GI, GJ, VRO, RBV, R, i, j, M):
-    """C02 (3): the objects created since A1 are exactly the variables x_a_o of the cells (a, o), o < M, before the cursor
-    (i, j), one per cell (GI, GJ: ghost row / column of a variable; VRO: the code's dictionary (row, column) -> variable)"""
-    return (forall(lambda v: implies(A1 <= ident(v) and ident(v) < A2,
-                                     var_ok(v, GI, GJ, VRO, RBV, R) and GJ[ident(v)] < M and before(GI[ident(v)], GJ[ident(v)], i, j)),
-                   sorts={"v": "LpVariable"})
-            and forall(lambda a, o: implies(before(a, o, i, j) and o < M,
-                                            (a, o) in VRO and A1 <= ident(VRO[(a, o)]) and ident(VRO[(a, o)]) < A2
-                                            and GI[ident(VRO[(a, o)])] == a and GJ[ident(VRO[(a, o)])] == o)))
+def vars_fwd(A1, A2, GI, GJ, VRO, RBV, R, i, j, M):
+    """C02 (3): every object created since A1 is the variable x_a_o of a cell (a, o), o < M, before the cursor (i, j) of the
+    row-wise double loop (GI, GJ: ghost row / column of a variable; VRO: the code's dictionary (row, column) -> variable)"""
+    return forall(lambda v: implies(A1 <= ident(v) and ident(v) < A2,
+                                    var_ok(v, GI, GJ, VRO, RBV, R) and GJ[ident(v)] < M and before(GI[ident(v)], GJ[ident(v)], i, j)),
+                  sorts={"v": "LpVariable"})
+
+
+@spec
+def vars_bwd(A1, A2, GI, GJ, VRO, i, j, M):
+    """... and every such cell has its variable (so: exactly one variable per cell)"""
+    return forall(lambda a, o: implies(before(a, o, i, j) and o < M,
+                                       (a, o) in VRO and A1 <= ident(VRO[(a, o)]) and ident(VRO[(a, o)]) < A2
+                                       and GI[ident(VRO[(a, o)])] == a and GJ[ident(VRO[(a, o)])] == o))
 
 
 @spec
@@ -523,7 +528,8 @@ _ENS = ["len(result.structure) == len(self.entries)", "seq_of(self.entries, resu
 _ENS_LABELS = {0: "length", 1: "sequence", 2: "lossless", 3: "fresh"}
 _REQ = ["valid(self.entries)", "levels30(self)", "degree30(self)"]
 
-_VM = "vars_made(A1, frontier(), GI, GJ, var_by_region_order, region_by_var, regions, {i}, {j}, max_order)"
+_VF = "vars_fwd(A1, frontier(), GI, GJ, var_by_region_order, region_by_var, regions, {i}, {j}, max_order)"
+_VB = "vars_bwd(A1, frontier(), GI, GJ, var_by_region_order, {i}, {j}, max_order)"
 _VAR_FIELDS = ["LpVariable.name", "LpVariable.lo", "LpVariable.hi", "LpVariable.cat"]
 _PROB_FIELDS = ["LpProblem.cons", "LpProblem.objective", "LpProblem.has_objective"]
 _PROB_TOUCH = {f: ["P0"] for f in _PROB_FIELDS}
@@ -557,10 +563,10 @@ class convert_to_dot_bracket:
         # for i, j in itertools.combinations(range(len(regions)), 2)
         0: {"index": "c0", "inv": ["graph_ok(graph, regions)", "graph_upto(graph, regions, combinations_pos, c0)"]},
         # for i in range(len(regions)) / for j in range(max_order): the decision variables
-        1: {"allocates": _VAR_FIELDS, "inv": ["frontier() >= A1", _VM.format(i="i", j="0"),
+        1: {"allocates": _VAR_FIELDS, "inv": ["frontier() >= A1", _VF.format(i="i", j="0"), _VB.format(i="i", j="0"),
                                               "rows_ok(vars_by_region, var_by_region_order, i, 0, max_order)",
                                               "cols_ok(vars_by_order, var_by_region_order, A1, frontier())"]},
-        2: {"allocates": _VAR_FIELDS, "inv": ["frontier() >= A1", _VM.format(i="i", j="j"),
+        2: {"allocates": _VAR_FIELDS, "inv": ["frontier() >= A1", _VF.format(i="i", j="j"), _VB.format(i="i", j="j"),
                                               "rows_ok(vars_by_region, var_by_region_order, i, j, max_order)",
                                               "cols_ok(vars_by_order, var_by_region_order, A1, frontier())"]},
         # for order, vars in vars_by_order.items() / for var in vars: the objective terms
@@ -602,9 +608,11 @@ class convert_to_dot_bracket:
          "do": ["let A1 = frontier()", "let GI = fill(0, 0)", "let GJ = fill(0, 0)"]},
         {"when": "after", "at": "variable = pulp.LpVariable(", "label": "new-variable",
          "do": ["let GI = upd(GI, ident(variable), i)", "let GJ = upd(GJ, ident(variable), j)",
-                "use int_str_roundtrip(i)", "use int_str_roundtrip(j)", "use split3('x', str(i), str(j))",
-                "assert variable.name == 'x' + '_' + str(i) + '_' + str(j)",
-                "assert parses_as(variable.name, i, j)"]},
+                # the string facts: proved from the five facts just stated alone (assert_last), inside a scope so that only the
+                # conclusion stays in the context
+                "scoped assert i >= 0 and j >= 0 | use int_str_roundtrip(i) | use int_str_roundtrip(j) "
+                "| use split3('x', str(i), str(j)) | assert variable.name == 'x' + '_' + str(i) + '_' + str(j) "
+                "| assert_last 5 parses_as(variable.name, i, j) | assert parses_as(variable.name, i, j)"]},
         {"when": "before", "at": "terms = []", "label": "variables-done", "do": ["let A2 = frontier()"]},
         {"when": "before", "at": "for i in graph.keys()", "label": "adjacency",
          "do": ["let ADJ = empty('dict[tuple[int,int,int],int]')", "let G0 = graph"]},
